@@ -13,26 +13,24 @@ Definition out_words (ws : list N) : list Z := Z.of_nat (length ws) :: map nZ ws
 Definition out_raw (a : ans) : list Z :=
   Z.of_nat (length (bulk a)) :: map nZ (rev (bulk a)) ++ [nZ (st a)].
 
-(* encode a list of symbols with one model, stopping at the first error (keeps
-   what was encoded) *)
-Fixpoint enc_iid (c : cfg) (m : emodel) (ss : list Z) (a : ans) : ans * Z :=
+(* batch forms of the model, one model for all symbols (iid) *)
+Definition enc_iid (c : cfg) (m : emodel) (ss : list Z) (a : ans) : ans * Z :=
+  let '(a', e) := ans_encode_batch c (map (fun s => (m, s)) ss) a in
+  (a', match e with None => 0 | Some _ => ERR_IMPOSSIBLE end).
+
+Definition enc_iid_rev (c : cfg) (m : emodel) (ss : list Z) (a : ans) : ans * Z :=
+  let '(a', e) := ans_encode_batch_reverse c (map (fun s => (m, s)) ss) a in
+  (a', match e with None => 0 | Some _ => ERR_IMPOSSIBLE end).
+
+Fixpoint try_items (m : emodel) (ss : list Z) (i fail_at : nat) : list (option (emodel * Z)) :=
   match ss with
-  | [] => (a, 0)
-  | s :: r => match ans_encode_sym c m s a with
-              | Some a' => enc_iid c m r a'
-              | None => (a, ERR_IMPOSSIBLE)
-              end
+  | [] => []
+  | s :: r => (if Nat.eqb i fail_at then None else Some (m, s)) :: try_items m r (S i) fail_at
   end.
 
-Fixpoint try_enc (c : cfg) (m : emodel) (ss : list Z) (i fail_at : nat) (a : ans) : ans * Z :=
-  match ss with
-  | [] => (a, 0)
-  | s :: r => if Nat.eqb i fail_at then (a, ERR_INVALID_MODEL) else
-              match ans_encode_sym c m s a with
-              | Some a' => try_enc c m r (S i) fail_at a'
-              | None => (a, ERR_IMPOSSIBLE)
-              end
-  end.
+Definition try_enc (c : cfg) (m : emodel) (ss : list Z) (fail_at : nat) (a : ans) : ans * Z :=
+  let '(a', e) := ans_try_encode c (try_items m ss 0 fail_at) a in
+  (a', match e with TryOk => 0 | TryImpossible _ => ERR_IMPOSSIBLE | TryInvalidModel _ => ERR_INVALID_MODEL end).
 
 Fixpoint dec_iid (c : cfg) (m : emodel) (k : nat) (a : ans) : ans * list Z :=
   match k with
@@ -115,11 +113,11 @@ Fixpoint ans_loop (fuel : nat) (c : cfg) (ms : list rmodel) (l : list Z) (a : an
         e :: ans_loop fuel' c ms r' a' tw
     | 10 :: m :: r =>
         let '(ss, r') := read_list r in
-        let '(a', e) := enc_iid c (get_model ms m) (rev ss) a in
+        let '(a', e) := enc_iid_rev c (get_model ms m) ss a in
         e :: ans_loop fuel' c ms r' a' tw
     | 11 :: m :: r =>
         let '(ss, r') := read_list r in
-        let '(a', e) := try_enc c (get_model ms m) ss 0 (Z.to_nat (hdz r')) a in
+        let '(a', e) := try_enc c (get_model ms m) ss (Z.to_nat (hdz r')) a in
         e :: ans_loop fuel' c ms (tl r') a' tw
     | 12 :: r => out_raw a ++ ans_loop fuel' c ms r a tw
     | 13 :: m :: k :: r =>
